@@ -17,7 +17,7 @@ import (
 	"golang.org/x/tools/go/ssa/ssautil"
 )
 
-const repoRoot = "/repo/v2"
+var repoRoot = "/repo/v2" // VERIF_REPO overrides (scratch worktrees for experiments; registered commands use /repo)
 const modPath = "gitlab.com/gomidi/midi/v2"
 
 var verifRoot = "/verif"
